@@ -1032,7 +1032,7 @@ func (st *State) convert(v Val, from, to types.Type, pos token.Pos, what string)
 		st.fc.V.utf8Prelude()
 		st.fc.V.addPrelude("u8count", "(define-fun-rec g_u8count ((c (Array Int Int)) (p Int) (e Int)) Int (ite (>= p e) 0 (+ 1 (g_u8count c (+ p (g_utf8_width c p e)) e))))")
 		n := st.define("nrunes", "Int", sApp("g_u8count", v.content(), v.soff(), sAdd(v.soff(), v.length())))
-		st.assume(sAnd(sCmp("<=", "0", n), sCmp("<=", n, v.length())))
+		st.assume(sAnd(sCmp("<=", "0", n), sCmp("<=", n, v.length()), sImp(sCmp(">", v.length(), "0"), sCmp(">=", n, "1"))))
 		arr := st.allocRef()
 		name := elemHeapName(types.Typ[types.Int32], Comp{Path: ""})
 		h := st.heapGet(name, "(Array Int (Array Int Int))")
